@@ -1,2 +1,159 @@
-import Op2Model.Lzh
-/-! # C04 — placeholder while the proofs are being written (replaced below in the same session) -/
+import Op2Proofs.Lzh.Drain
+import Op2Model.Gen.Constants
+import Op2Model.Gen.Layout
+import Op2Model.Gen.Formulas
+/-!
+# C04 — LZH decompression equals the reference decoder, however it is drained
+
+`Spec.decode data` is the reference: textbook LZSS over the unbounded output history (most distances reach back into
+an unbounded run of spaces), the 314-symbol adaptive Huffman tree, do-while on the bit cursor.  `St`, `getData`,
+`getInternal` are `HuffLZ` as written: 4 KiB circular window doubling as output queue.
+-/
+namespace Op2.Props.C04
+open Op2 Op2.Huff Op2.Lzh Op2.Lzh.Spec
+
+/-! ## facts regenerated from the source on every run -/
+
+
+theorem C04_gen_constants :
+    Gen.Constants.huff_symbolCount = symbolCount ∧ Gen.Constants.huff_matchBase = matchBase ∧
+    Gen.Constants.huff_literalLimit = 256 ∧ Gen.Constants.huff_fillByte = fillByte.toNat ∧
+    Gen.Constants.huff_windowMask + 1 = N ∧ Gen.Layout.huffLZ_bufferSize = N := by decide
+
+/-- the tuning constant of `FillDecompressBuffer` leaves room for the longest code (60 bytes) in the 4096-byte window -/
+theorem C04_gen_maxFill_safe : 0 < Gen.Constants.huff_maxFill ∧ Gen.Constants.huff_maxFill + (symbolCount - 1 - matchBase) < N := by
+  decide
+
+set_option maxRecDepth 4000 in
+/-- `GetOffsetModifiers` as translated from the clang AST equals the model's table, for every 8-bit code -/
+theorem C04_gen_offsetModifiers : ∀ o : Nat, o < 256 →
+    Gen.Formulas.gen_GetOffsetModifiers (Int.ofNat o) = (Int.ofNat (offsetMods o).1, Int.ofNat (offsetMods o).2) := by
+  intro o h
+  have ho : (Int.ofNat o) = (o : Int) := rfl
+  unfold Gen.Formulas.gen_GetOffsetModifiers offsetMods Gen.Formulas.castU
+  rw [ho]
+  have e1 : ((1:Int)).toNat = 1 := rfl
+  have e2 : ((2:Int)).toNat = 2 := rfl
+  have e3 : ((3:Int)).toNat = 3 := rfl
+  have e4 : ((4:Int)).toNat = 4 := rfl
+  have p32 : (2:Int) ^ 32 = 4294967296 := by decide
+  have p4 : (2:Int) ^ 4 = 16 := by decide
+  have p3 : (2:Int) ^ 3 = 8 := by decide
+  have p2 : (2:Int) ^ 2 = 4 := by decide
+  have p1 : (2:Int) ^ 1 = 2 := by decide
+  simp only [e1, e2, e3, e4, p32, p4, p3, p2, p1]
+  by_cases c1 : o < 32
+  · have : ((o:Int) < 32 % 4294967296) := by omega
+    simp only [c1, this, if_true]; simp
+  · have n1 : ¬ ((o:Int) < 32 % 4294967296) := by omega
+    by_cases c2 : o < 80
+    · have : ((o:Int) < 80 % 4294967296) := by omega
+      simp only [c1, c2, n1, this, if_true, if_false]
+      simp; omega
+    · have n2 : ¬ ((o:Int) < 80 % 4294967296) := by omega
+      by_cases c3 : o < 144
+      · have : ((o:Int) < 144 % 4294967296) := by omega
+        simp only [c1, c2, c3, n1, n2, this, if_true, if_false]
+        simp; omega
+      · have n3 : ¬ ((o:Int) < 144 % 4294967296) := by omega
+        by_cases c4 : o < 192
+        · have : ((o:Int) < 192 % 4294967296) := by omega
+          simp only [c1, c2, c3, c4, n1, n2, n3, this, if_true, if_false]
+          simp; omega
+        · have n4 : ¬ ((o:Int) < 192 % 4294967296) := by omega
+          by_cases c5 : o < 240
+          · have : ((o:Int) < 240 % 4294967296) := by omega
+            simp only [c1, c2, c3, c4, c5, n1, n2, n3, n4, this, if_true, if_false]
+            simp; omega
+          · have n5 : ¬ ((o:Int) < 240 % 4294967296) := by omega
+            simp only [c1, c2, c3, c4, c5, n1, n2, n3, n4, n5, if_false]
+            simp; omega
+
+attribute [local irreducible] Spec.run TA.init
+
+/-! ## termination -/
+
+/-- the reference decoder terminates on every byte string (its fuel, the bit length plus two, is never exhausted) -/
+theorem C04_terminates (data : Array UInt8) : (Spec.decode data).2 ≠ .fuel := by
+  show (Spec.run data (bitSize data + 2) (TA.init symbolCount) 0 []).2 ≠ .fuel
+  exact run_terminates data _ _ _ _ treeOk_init (by omega)
+
+/-! ## staying inside the decoder's own memory -/
+
+/-- every decoded offset is a 12-bit number and every match is 3..60 bytes long: the copy source and destination are
+    window indices `< 4096` -/
+theorem C04_offsets_in_window (data : Array UInt8) (t t' : TA) (p p2 off len : Nat) (hT : t.T = symbolCount)
+    (h : decodeSym data t p = .mat t' p2 off len) : off < N ∧ 3 ≤ len ∧ len ≤ 60 :=
+  decodeSym_mat hT h
+
+/-- every reachable decoder object keeps its 4096-byte buffer, its indices inside it, and a well-formed tree whose
+    tables keep their sizes; every buffer store and tree store is therefore in bounds -/
+theorem C04_window_safe (data : Array UInt8) :
+    ∀ (st : St) (hist : List UInt8) (taken : Nat) (res : List UInt8 × Status), Inv data st hist taken res →
+      st.buf.size = N ∧ st.w < N ∧ st.r < N ∧ st.unread < N :=
+  fun st _ _ _ i => ⟨i.win.size, i.win.hw, i.hr, unread_lt st⟩
+
+/-! ## the drain interfaces deliver the reference output -/
+
+/-- **drain independence**: for every byte string and every finite sequence of `GetData(k)` / `GetInternalBuffer`
+    calls, the bytes delivered (concatenated) are exactly the first so-many bytes of the reference output, and a call
+    fails only if the reference decoder itself ends at the tree's capacity -/
+theorem C04_refines (data : Array UInt8) (calls : List Call) :
+    (drain (St.init data) calls).1.flatten = (Spec.decode data).1.take (drain (St.init data) calls).1.flatten.length ∧
+    ((drain (St.init data) calls).2 = true → (Spec.decode data).2 = .capacity) := by
+  have := drain_spec data _ calls (St.init data) [] 0 (inv_init data)
+  rw [List.drop_zero] at this
+  exact this
+
+/-- `GetData(k)` on a fresh decoder returns the first `min k |output|` bytes of the reference output (so a caller that
+    asks for more than there is gets everything, and a short count means the output has ended) -/
+theorem C04_getData_first (data : Array UInt8) (k : Nat) (h : (Spec.decode data).2 = .done) :
+    ∃ st', getData (St.init data) k = .ok ((Spec.decode data).1.take k, st') := by
+  rcases getData_spec data _ (St.init data) k [] 0 (inv_init data) with ⟨_, hcap⟩ | ⟨st', _, a, _⟩
+  · have : (Spec.decode data).2 = .capacity := hcap
+    rw [h] at this; cases this
+  · rw [List.drop_zero] at a
+    exact ⟨st', a⟩
+
+/-- two schedules that deliver the same number of bytes deliver the same bytes -/
+theorem C04_schedule_independent (data : Array UInt8) (c1 c2 : List Call)
+    (h : (drain (St.init data) c1).1.flatten.length = (drain (St.init data) c2).1.flatten.length) :
+    (drain (St.init data) c1).1.flatten = (drain (St.init data) c2).1.flatten := by
+  rw [(C04_refines data c1).1, (C04_refines data c2).1, h]
+
+/-- within capacity no call fails -/
+theorem C04_no_error_within_capacity (data : Array UInt8) (calls : List Call) (h : (Spec.decode data).2 = .done) :
+    (drain (St.init data) calls).2 = false := by
+  cases hd : (drain (St.init data) calls).2 with
+  | false => rfl
+  | true => have := (C04_refines data calls).2 hd; rw [h] at this; cases this
+
+/-- `GetInternalBuffer` returning no bytes means the whole reference output has been delivered (this is the loop
+    condition of `VolFile::ExtractFileLzh`) -/
+theorem C04_internal_empty_means_done (data : Array UInt8) (st : St) (hist : List UInt8) (taken : Nat)
+    (i : Inv data st hist taken (Spec.run data (bitSize data + 2) (TA.init symbolCount) 0 []))
+    (st' : St) (h : getInternal st = .ok ([], st')) : taken = (Spec.decode data).1.length := by
+  rcases getInternal_spec data _ st hist taken i with ⟨⟨e, he⟩, _⟩ | ⟨st2, hist2, bytes, a, _, _, d⟩
+  · rw [he] at h; cases h
+  · rw [a] at h
+    simp only [Except.ok.injEq, Prod.mk.injEq] at h
+    have := d h.1
+    rw [this]
+    show _ = ((Spec.run data (bitSize data + 2) (TA.init symbolCount) 0 []).1.reverse).length
+    rw [List.length_reverse]
+
+/-- **capacity**: when the input needs more symbol updates than the tree's counters can represent, the reference
+    output stops at that code, and no drain schedule ever delivers a byte beyond it (`C04_refines` bounds every
+    delivery by the reference output) -/
+theorem C04_capacity (data : Array UInt8) (calls : List Call) :
+    (drain (St.init data) calls).1.flatten.length ≤ (Spec.decode data).1.length := by
+  have h := (C04_refines data calls).1
+  have := congrArg List.length h
+  rw [List.length_take] at this
+  omega
+
+/-- non-vacuity: the initial object satisfies the invariant all of the above rest on -/
+example (data : Array UInt8) : Inv data (St.init data) [] 0 (Spec.run data (bitSize data + 2) (TA.init symbolCount) 0 []) :=
+  inv_init data
+
+end Op2.Props.C04
